@@ -505,3 +505,53 @@ def shared_run(ctx, mod, prop=None, flags=()):
         mod.run(sub)
         cache[key] = sub
     return sub
+
+
+import re as _re_fp
+_FP_SPEC = _re_fp.compile(r"%(?:%|([sdr]))")
+
+
+def format_parts(t):
+    """One form for a formatted string, whichever way it is spelled: ("parts", (piece, ...)) with literal text as str (adjacent text merged) and
+    each formatted value as ("v", term, "r" for repr / "" for str).  Understood: `"lit %s %r" % (a, b)` / `% a` with plain %s %d %r only,
+    f-strings without format specs, str.format is not.  Anything else is returned unchanged."""
+    pieces = None
+    if isinstance(t, tuple) and t and t[0] == "fmt" and N.is_const(t[1]) and isinstance(t[1][2], str):
+        text = t[1][2]
+        args = list(t[2][1]) if t[2][0] == "tuple" else [t[2]]
+        if "%" in _FP_SPEC.sub("", text):
+            return t
+        pieces, pos, k = [], 0, 0
+        for m in _FP_SPEC.finditer(text):
+            if m.start() > pos:
+                pieces.append(text[pos:m.start()])
+            pos = m.end()
+            if m.group(0) == "%%":
+                pieces.append("%")
+                continue
+            if k >= len(args):
+                return t
+            pieces.append(("v", args[k], "r" if m.group(1) == "r" else ""))
+            k += 1
+        if pos < len(text):
+            pieces.append(text[pos:])
+        if k != len(args):
+            return t
+    elif isinstance(t, tuple) and t and t[0] == "fstr":
+        pieces = []
+        for x in t[1]:
+            if N.is_const(x) and isinstance(x[2], str):
+                pieces.append(x[2])
+            elif x[0] == "fmtval" and x[3] is None and x[2] in (-1, 114, 115):
+                pieces.append(("v", x[1], "r" if x[2] == 114 else ""))
+            else:
+                return t
+    if pieces is None:
+        return t
+    out = []
+    for x in pieces:
+        if isinstance(x, str) and out and isinstance(out[-1], str):
+            out[-1] += x
+        elif x != "":
+            out.append(x)
+    return ("parts", tuple(out))
